@@ -73,12 +73,12 @@
 //     network; panics inside the stubs (`expect("There should be at least the overflow depot available.")`);
 //   * that the result satisfies sv_ok again (invariant preservation) beyond what the postconditions state (usage_exact,
 //     sorted / matching listings, transitions consistent with the new tours); that the callers establish the preconditions;
-//   * FINDING (documented by the contract, not a failing obligation): if the path starts with a depot that cannot spawn the
-//     vehicle, add_suitable_start_and_end_depot_to_path overwrites the FIRST AND THE LAST node with the overflow depot's
-//     nodes whatever the last node is (`std::mem::replace(&mut nodes[tour_len - 1], ..)`): a path
-//     [full start depot, trip a, trip b] becomes [overflow start, trip a, overflow end] and trip b is silently dropped.
-//     Hence `activities_kept` is only claimed for paths with ends_alike (start depot ==> end depot).  All in-tree callers
-//     pass paths without depots or complete tours.
+//   * D12 (fixed in /repo, `fix:` 56e2050): if the path starts with a depot that cannot spawn the vehicle, the unfixed
+//     add_suitable_start_and_end_depot_to_path overwrote the FIRST AND THE LAST node with the overflow depot's nodes
+//     whatever the last node was: [full start depot, trip a, trip b] became [overflow start, trip a, overflow end].
+//     `ends_replaced` now states the repaired behaviour (last node replaced only if it is a depot, otherwise the overflow
+//     end depot is appended) and `activities_kept` is claimed for every path; on the unfixed code obligation
+//     C13.add_suitable_depots.path_kept_in_order fails.
 #![feature(allocator_api)]
 use vstd::prelude::*;
 use std::ops::Add;
@@ -347,8 +347,7 @@ impl Clone for TransitionCycle {
         r is Ok ==> self.spawned(vehicle_type_idx, path_as_vec@, &r->Ok_0.0, r->Ok_0.1), // @obl C13.spawn_vehicle.adds_exactly_one_vehicle_with_the_given_path
         // ... no activity of the path is lost, unless the path starts with a depot and ends with an activity (see "NOT
         // covered / finding" in the header)
-        r is Ok && ends_alike(&self.network, path_as_vec@)
-            ==> activities_kept(&self.network, path_as_vec@, r->Ok_0.0.tours@[r->Ok_0.1].nodes@), // @obl C13.spawn_vehicle.adds_exactly_one_vehicle_with_the_given_path
+        r is Ok ==> activities_kept(&self.network, path_as_vec@, r->Ok_0.0.tours@[r->Ok_0.1].nodes@), // @obl C13.spawn_vehicle.adds_exactly_one_vehicle_with_the_given_path
         r is Ok ==> self.listed(vehicle_type_idx, &r->Ok_0.0, r->Ok_0.1), // @obl C13.spawn_vehicle.adds_exactly_one_vehicle_with_the_given_path
         // C10 "listings sorted and match": if every type's id list held exactly the vehicles of the type, it still does
         r is Ok && self.listings_match() ==> r->Ok_0.0.listings_match(), // @obl C10.spawn_vehicle.listings_still_match
@@ -385,7 +384,7 @@ impl Clone for TransitionCycle {
             assert forall|i: int| 0 <= i < path.len() implies self.network.sp_compatible(#[trigger] path[i], vehicle_type_idx) by {} // @obl C01.spawn_vehicle.only_compatible_nodes
             assert(tour_of_net(&self.network, &nt));
             lemma_tour_compatible(&self.network, path, &nt, vehicle_type_idx); // @obl C01.spawn_vehicle.only_compatible_nodes
-            if ends_alike(&self.network, path) { lemma_activities_kept(&self.network, path, nt.nodes@); } // @obl C13.spawn_vehicle.adds_exactly_one_vehicle_with_the_given_path
+            lemma_activities_kept(&self.network, path, nt.nodes@); // @obl C13.spawn_vehicle.adds_exactly_one_vehicle_with_the_given_path
             // what the bookkeeping steps need
             lemma_tfu_pre(self, vehicle_type_idx, vh, &nt);
             lemma_cost_bounds(&self.network, nt.nodes@);
